@@ -37,7 +37,9 @@ RULE = (
     "an exact class (integer-valued coordinates below 2**20, also after an identity / integer-preserving projection, Pythagorean and "
     "axis-aligned offsets, maxdist equal to that exact distance or 0 on a data point) judged strictly: d == maxdist must be True; array form "
     "and xarray.Dataset form (dims (northing, easting) under several names, non-square and square shapes, 2-3 variables incl. integer ones and pre-existing NaN cells, "
-    "ascending / descending / irregular coordinates). Projections: anisotropic scaling, shear and non-linear "
+    "ascending / descending / irregular coordinates; Datasets built by the constructor, coords-then-setitem, DataArray.to_dataset, "
+    "assign, with coordinates declared in either order and extra non-index / scalar coordinates declared first, so that Dataset-level "
+    "dims/sizes/coords orderings differ from the variables' (northing, easting) dims). Projections: anisotropic scaling, shear and non-linear "
     "monotone maps, so that projecting none or one of the two point sets changes the answer. Non-trivial = KNeighbors call with k < n "
     "and a decided query; median_distance with n >= k+2; distance_mask whose decided cells contain both True and False. Distinct = hash "
     "of the arrays and the configuration."
@@ -54,8 +56,8 @@ ASSUMPTIONS = [
 FLOORS = {
     # about 40 percent of the smallest value seen on the unchanged tree over seeds 0..9 (thorough = 15 x the quick workload)
     "quick": {
-        "eval:KNeighbors.predict": 1700, "eval:median_distance": 360, "eval:distance_mask.array": 360,
-        "eval:distance_mask.grid": 360, "distinct_nontrivial": 2300, "knn_queries_decided": 85000, "mask_cells_decided": 165000,
+        "eval:KNeighbors.predict": 1700, "eval:median_distance": 360, "eval:distance_mask.array": 510,
+        "eval:distance_mask.grid": 430, "distinct_nontrivial": 2300, "knn_queries_decided": 85000, "mask_cells_decided": 165000,
         "class:knn_nested_call": 190, "class:knn_k=n": 220, "class:knn_k=1": 320, "class:knn_reduction_median": 200,
         "class:knn_reduction_min": 200, "class:knn_reduction_max": 200, "class:knn_query_2d": 500, "class:median_k=n-1": 45,
         "class:median_input_2d": 110, "class:mask_projection_Warp": 160, "class:mask_projection_Aniso": 160,
@@ -67,10 +69,16 @@ FLOORS = {
         "strict:mask_calls_with_cells_at_exactly_maxdist_array": 120, "strict:mask_calls_with_cells_at_exactly_maxdist_grid": 68,
         "strict:mask_cells_exact_distance": 14500, "class:mask_integer_coordinates": 240,
         "class:mask_projection_IntegerMap": 170, "either_way:knn_query_with_tied_kth_neighbour": 3000,
+        "grid_built:constructor": 40, "grid_built:constructor_northing_coord_first": 40, "grid_built:coords_then_setitem": 45,
+        "grid_built:coords_northing_first_then_setitem": 45, "grid_built:dataarray_to_dataset": 43,
+        "grid_built:coords_then_assign": 50, "grid_built:extra_non_index_coordinates_first": 44,
+        "grid_built:setitem_with_scalar_coordinate": 50, "class:grid_dataset_level_dims_easting_first": 200,
+        "class:grid_dataset_level_dims_northing_first": 200, "class:grid_coords_declared_northing_first": 95,
+        "class:grid_first_coordinate_is_not_a_dimension": 98, "class:grid_square_with_easting_first_dataset_dims": 30,
     },
     "thorough": {
-        "eval:KNeighbors.predict": 25500, "eval:median_distance": 5400, "eval:distance_mask.array": 5400,
-        "eval:distance_mask.grid": 5400, "distinct_nontrivial": 34500, "knn_queries_decided": 1275000,
+        "eval:KNeighbors.predict": 25500, "eval:median_distance": 5400, "eval:distance_mask.array": 7650,
+        "eval:distance_mask.grid": 6450, "distinct_nontrivial": 34500, "knn_queries_decided": 1275000,
         "mask_cells_decided": 2475000, "class:knn_nested_call": 2850, "class:knn_k=n": 3300, "class:knn_k=1": 4800,
         "class:knn_reduction_median": 3000, "class:knn_reduction_min": 3000, "class:knn_reduction_max": 3000,
         "class:knn_query_2d": 7500, "class:median_k=n-1": 675, "class:median_input_2d": 1650, "class:mask_projection_Warp": 2400,
@@ -82,7 +90,13 @@ FLOORS = {
         "strict:mask_zero_maxdist_on_a_data_point": 1350, "strict:mask_calls_with_cells_at_exactly_maxdist_array": 1800,
         "strict:mask_calls_with_cells_at_exactly_maxdist_grid": 1020, "strict:mask_cells_exact_distance": 217500,
         "class:mask_integer_coordinates": 3600, "class:mask_projection_IntegerMap": 2550,
-        "either_way:knn_query_with_tied_kth_neighbour": 45000,
+        "either_way:knn_query_with_tied_kth_neighbour": 45000, "grid_built:constructor": 600,
+        "grid_built:constructor_northing_coord_first": 600, "grid_built:coords_then_setitem": 675,
+        "grid_built:coords_northing_first_then_setitem": 675, "grid_built:dataarray_to_dataset": 645,
+        "grid_built:coords_then_assign": 750, "grid_built:extra_non_index_coordinates_first": 660,
+        "grid_built:setitem_with_scalar_coordinate": 750, "class:grid_dataset_level_dims_easting_first": 3000,
+        "class:grid_dataset_level_dims_northing_first": 3000, "class:grid_coords_declared_northing_first": 1425,
+        "class:grid_first_coordinate_is_not_a_dimension": 1470, "class:grid_square_with_easting_first_dataset_dims": 450,
     },
 }
 JOBS = {"quick": 1, "thorough": 8}
@@ -576,6 +590,17 @@ def install(tap, run):
         else:
             run.count("class:grid_shape_%s" % ("square" if q0.shape[0] == q0.shape[1] else "non_square"))
             run.count("class:grid_variables_%d" % len(names))
+            # Dataset-level orderings (none of them may matter: the mesh is (dims[1] of the variable, dims[0] of the variable))
+            level = [d for d in grid.sizes if d in dims]
+            run.count("class:grid_dataset_level_dims_%s" % ("northing_first" if level == list(dims) else "easting_first"))
+            order = [c for c in grid.coords if c in dims]
+            run.count("class:grid_coords_declared_%s" % ("northing_first" if order == list(dims) else "easting_first"))
+            if list(grid.coords)[0] not in dims:
+                run.count("class:grid_first_coordinate_is_not_a_dimension")
+            if len(grid.coords) > 2:
+                run.count("class:grid_has_extra_coordinates")
+            if level != list(dims) and q0.shape[0] == q0.shape[1]:
+                run.count("class:grid_square_with_easting_first_dataset_dims")
             run.seen("grid_dim_names", "%s,%s" % (dims[0], dims[1]))
             if not isinstance(res, xr.Dataset) or list(res.data_vars) != names:
                 run.violation("distance_mask.grid", "result is not a Dataset with the variables %s" % names,
@@ -586,6 +611,10 @@ def install(tap, run):
                     run.violation("distance_mask.grid", "coordinate %r of the masked grid differs from the input grid" % dim,
                                   dict(witness, result=res), key="mask:grid:coords")
                     return
+            if set(res.coords) != set(grid.coords):
+                run.violation("distance_mask.grid", "coordinates of the masked grid %s differ from those of the input grid %s"
+                              % (sorted(res.coords), sorted(grid.coords)), dict(witness, result=res), key="mask:grid:coords_lost")
+                return
             for name in names:
                 vin, vout = grid[name], res[name]
                 if vout.dims != vin.dims or vout.shape != vin.shape:
@@ -876,6 +905,72 @@ DIM_NAMES = [("northing", "easting"), ("y", "x"), ("latitude", "longitude"), ("l
              ("a_north", "z_east"), ("z_north", "a_east")]
 
 
+GRID_BUILDERS = ["constructor", "constructor_northing_coord_first", "coords_then_setitem", "coords_northing_first_then_setitem",
+                 "dataarray_to_dataset", "coords_then_assign", "extra_non_index_coordinates_first", "setitem_with_scalar_coordinate"]
+
+
+def _build_grid(rng, dn, de, nv, ev, variables, how=None):
+    """
+    The same grid (variables with dims (northing, easting)) built in different ways, so that the Dataset-level ordering of
+    dims / sizes / coords differs from the variables' own dims. variables: OrderedDict name -> 2-D array (n_north, n_east).
+    """
+    import xarray as xr
+
+    how = GRID_BUILDERS[int(rng.integers(0, len(GRID_BUILDERS)))] if how is None else how
+    pairs = collections.OrderedDict((name, ((dn, de), np.asarray(vals))) for name, vals in variables.items())
+    if how == "constructor":
+        grid = xr.Dataset(pairs, coords={de: ev, dn: nv})
+    elif how == "constructor_northing_coord_first":
+        grid = xr.Dataset(pairs, coords={dn: nv, de: ev})
+    elif how == "coords_then_setitem":
+        grid = xr.Dataset(coords={de: ev, dn: nv})
+        for name, pair in pairs.items():
+            grid[name] = pair
+    elif how == "coords_northing_first_then_setitem":
+        grid = xr.Dataset(coords={dn: nv, de: ev})
+        for name, pair in pairs.items():
+            grid[name] = pair
+    elif how == "dataarray_to_dataset":
+        names = list(pairs)
+        grid = xr.DataArray(pairs[names[0]][1], coords={de: ev, dn: nv}, dims=(dn, de), name=names[0]).to_dataset()
+        for name in names[1:]:
+            grid[name] = pairs[name]
+    elif how == "coords_then_assign":
+        grid = xr.Dataset(coords={de: ev, dn: nv}).assign(**pairs)
+    elif how == "extra_non_index_coordinates_first":
+        coords = collections.OrderedDict()
+        coords["aux_along_" + de] = ((de,), np.asarray(ev, dtype="float64") * 2.0 + 1.0)
+        if rng.random() < 0.5:
+            coords["height"] = ((dn, de), np.full((len(nv), len(ev)), 3.5))
+        coords[de] = ev
+        coords[dn] = nv
+        grid = xr.Dataset(pairs, coords=coords)
+    elif how == "setitem_with_scalar_coordinate":
+        grid = xr.Dataset(coords={"time": 3.0, de: ev, dn: nv})
+        for name, pair in pairs.items():
+            grid[name] = pair
+    else:
+        raise ValueError(how)
+    grid.attrs["title"] = "c15"
+    return grid, how
+
+
+def _masked_grid(run, verde, rng, data_coords, maxdist, dn, de, nv, ev, variables, projection):
+    """distance_mask(grid=...) on one construction variant (a refusal of a valid Dataset escapes and is a violation)."""
+    grid, how = _build_grid(rng, dn, de, nv, ev, variables)
+    run.count("grid_built:" + how)
+    if rng.random() < 0.03:
+        # A Dataset that also carries a 1-D data variable: verde refuses it on the unchanged tree (IndexError when it comes
+        # first, ValueError from Dataset.where otherwise). Tolerated and counted; see the report.
+        extra = grid.assign(profile_along_easting=((de,), np.asarray(ev, dtype="float64") * 0.5))
+        try:
+            verde.distance_mask(data_coords, maxdist, grid=extra, projection=projection)
+            run.count("accepted:grid_with_extra_1d_data_variable")
+        except (IndexError, ValueError):
+            run.count("refused:grid_with_extra_1d_data_variable")
+    return verde.distance_mask(data_coords, maxdist, grid=grid, projection=projection), how
+
+
 def _mask_grid_case(run, verde, rng):
     import xarray as xr
 
@@ -899,13 +994,12 @@ def _mask_grid_case(run, verde, rng):
         dn, de = DIM_NAMES[int(rng.integers(0, len(DIM_NAMES)))]
         cell_id = np.arange(nn * ne, dtype="float64").reshape(nn, ne)
         variables = collections.OrderedDict()
-        variables["scalars"] = ((dn, de), 1000.0 + cell_id)  # every cell knows its own position
-        variables["second"] = ((dn, de), (7 * cell_id[::-1, ::-1] - 3).astype("int64") if rng.random() < 0.5 else rng.normal(size=(nn, ne)))
+        variables["scalars"] = 1000.0 + cell_id  # every cell knows its own position
+        variables["second"] = (7 * cell_id[::-1, ::-1] - 3).astype("int64") if rng.random() < 0.5 else rng.normal(size=(nn, ne))
         if rng.random() < 0.3:
             third = rng.normal(size=(nn, ne))
             third[rng.random((nn, ne)) < 0.1] = np.nan  # cells that were blank before
-            variables["third"] = ((dn, de), third)
-        grid = xr.Dataset(variables, coords={de: ev, dn: nv}, attrs={"title": "c15"})
+            variables["third"] = third
         qx = np.broadcast_to(ev[None, :], (nn, ne)).ravel()
         qy = np.broadcast_to(nv[:, None], (nn, ne)).ravel()
         projection = _projection(rng, np.concatenate([east, qx]), np.concatenate([north, qy]))
@@ -917,9 +1011,9 @@ def _mask_grid_case(run, verde, rng):
             nearest = nearest_distance(np.ravel(pqx), np.ravel(pqy), np.ravel(pe), np.ravel(pn))
         maxdist = _maxdist_choice(rng, nearest)
         data_coords = (float(east[0]), float(north[0])) if n == 1 and rng.random() < 0.5 else (east, north)
-        out = verde.distance_mask(data_coords, maxdist, grid=grid, projection=projection)
+        out, how = _masked_grid(run, verde, rng, data_coords, maxdist, dn, de, nv, ev, variables, projection)
     run.sample("mask_grid", {"data_coordinates": list(data_coords), "maxdist": maxdist, "projection": repr(projection),
-                             "dims": [dn, de], "grid_shape": [nn, ne], "variables": list(variables),
+                             "dims": [dn, de], "grid_shape": [nn, ne], "variables": list(variables), "built": how,
                              "masked_cells": int(np.isnan(out["scalars"].values).sum())})
 
 
@@ -993,11 +1087,11 @@ def _mask_exact_case(run, verde, rng):
             dn_name, de_name = DIM_NAMES[int(rng.integers(0, len(DIM_NAMES)))]
             cell_id = np.arange(nn * ne, dtype="float64").reshape(nn, ne)
             variables = collections.OrderedDict()
-            variables["scalars"] = ((dn_name, de_name), 1000.0 + cell_id)
-            variables["second"] = ((dn_name, de_name), (7 * cell_id[::-1, ::-1] - 3).astype("int64"))
+            variables["scalars"] = 1000.0 + cell_id
+            variables["second"] = (7 * cell_id[::-1, ::-1] - 3).astype("int64")
             coord_dtype = "int64" if rng.random() < 0.4 else "float64"
-            grid = xr.Dataset(variables, coords={de_name: ev.astype(coord_dtype), dn_name: nv.astype(coord_dtype)})
-            out = verde.distance_mask(data_coords, maxdist, grid=grid, projection=projection)
+            out, _ = _masked_grid(run, verde, rng, data_coords, maxdist, dn_name, de_name, nv.astype(coord_dtype), ev.astype(coord_dtype),
+                                  variables, projection)
             kept = int(np.isfinite(out["scalars"].values).sum())
     run.sample("mask_exact", {"data_coordinates": [de, dn], "maxdist": maxdist, "projection": repr(projection), "eastings": ev, "northings": nv,
                               "form": ["mesh", "scattered", "grid"][form], "cells_kept": kept,
